@@ -27,7 +27,9 @@ class Model(BaseModel):
     def call(self, ex, path, bb, t, args):
         name = M.call_name(t)
         m = re.search(r"Option::<.*>::map::<", name)
-        if m and len(args) == 2 and args[1][0] == "closure" and ex.facts is not None and args[1][1] in ex.facts.fns:
+        if m and len(args) == 2 and args[1][0] == "closure" and ex.facts is not None and args[1][1] in ex.facts.fns and re.search(r"CompiledDfa::find_from$", ex.fn.name):
+            # (the final `incumbent.map(|..| Match::new(..))` of find_from is kept as a deferred call: the result-role rule
+            # evaluates the closure itself; everywhere else Option::map is the branch the engine makes of it)
             opt = args[0]
             v = ex.known_variant(path, opt)
             outs = []
@@ -620,6 +622,34 @@ def analyze(ctx, want):
             continue
         flag, ln = r[1][0], r[1][1]
         isp = ("field", ("sym", "self"), "is_positive")
+
+        def simp_bool(t):
+            # the flag under what the path knows about the search result: `found.is_some() == self.is_positive` is
+            # is_positive on the Some path and !is_positive on the None path
+            if t[0] == "isvar":
+                kv = ex.known_variant(p, t[1])
+                if kv is not None:
+                    return ("bool", kv == t[2])
+                return t
+            if t[0] == "not":
+                x = simp_bool(t[1])
+                if x[0] == "bool":
+                    return ("bool", not x[1])
+                if x[0] == "not":
+                    return x[1]
+                return ("not", x)
+            if t[0] == "binop" and t[1] in ("Eq", "Ne"):
+                a, b = simp_bool(t[2]), simp_bool(t[3])
+                if b[0] == "bool" and a[0] != "bool":
+                    a, b = b, a
+                if a[0] == "bool":
+                    if b[0] == "bool":
+                        return ("bool", (a[1] == b[1]) == (t[1] == "Eq"))
+                    pos = a[1] == (t[1] == "Eq")
+                    return b if pos else simp_bool(("not", b))
+                return (t[0], t[1], a, b)
+            return t
+        flag = simp_bool(flag)
         if v == "Some":
             rows["match"] = "(%s, %s)" % (S.vstr(flag), S.vstr(ln))
             ob("C04.b", "polarity:lookahead-text-matches", flag == isp, "satisfied := %s (must be is_positive)" % S.vstr(flag), sl.loc())
